@@ -53,6 +53,7 @@ def make_doc(seed: int, prop: str) -> tuple[dict, dict]:
                                          "application/vnd.SIM.Report": "application/json", "text/X-Sim-Note": "text/plain"}
         g.ct_overrides = cfg["content_type_overrides"]
     doc = g.document()
+    docgen.unique_titles(doc)
     ov = cfg.get("content_type_overrides")
     cfg = docgen.random_config(rng.stream(seed, "config"), doc)
     cfg.setdefault("literal_enums", False)
